@@ -125,6 +125,10 @@ impl Monitor for C14 {
                 if now - o_pre.variables.last_reference_update_timestamp > MAX_REFERENCE_AGE { "reset" } else if now - mx < c.filter_period as u64 { "filter" } else if now - mx < c.decay_period as u64 { "decay" } else { "expired" }
             };
             acc.count(&format!("reference_class_{elapsed_class}"));
+            if elapsed_class == "reset" && now - o_pre.variables.last_major_swap_timestamp <= MAX_REFERENCE_AGE {
+                // the one-hour reset applies although a major swap happened recently
+                acc.count("reference_class_reset_masked_by_major_swap");
+            }
             // ---------- every part of the swap is charged the rate of its tick group ----------
             let static_rate = pre.fee_rate;
             let mut saw_saturated = false;
